@@ -83,7 +83,7 @@ def St.mon (s : St) (i : Nat) (r : Option String) : St :=
 
 def runStart (s : St) (i : Nat) (cmd : List String) (outs : List (List String)) : St :=
   match cmd, findOut outs "rc", findOut outs "ref", findOut outs "out", findOut outs "nm" with
-  | [on, fp, fb], some [rc], some [utf8, parse, fwref], some [outw], some [nm, nmNull] =>
+  | [on, fp, fb], some [rc], some [utf8, parse, fwref, strict], some [outw], some [nm, nmNull] =>
     match hexNat fp, hexNat fb, rc.toNat?, nmNull.toNat? with
     | some fp, some fb, some rc, some nmNull =>
       let fp := UInt64.ofNat fp
@@ -94,6 +94,8 @@ def runStart (s : St) (i : Nat) (cmd : List String) (outs : List (List String)) 
       let s := s.mon i (firstFail o.checks)
       let s := s.feat s!"s{rc}"
       let s := if on == "1" then s.feat "outnull" else s
+      -- accepted although a literal split at LF leaves a piece the Rust API rejects (CRLF, trailing LF)
+      let s := if rc == RC_Ok && strict == "bad" then s.feat "lenient-lines" else s
       -- (a) model
       let mrc := startRc o.outNull arg fp fb
       let s := if mrc != rc then s.tag i "RC" else s
